@@ -22,6 +22,10 @@ type Ctx struct {
 	Excluded map[string]int // suppressed draws per tag (excluded_by_construction)
 	Tags     map[string]int // feature tags used by this document
 
+	// NeedClient: the document will be generated with --client, so rows goag rejects
+	// only under --client are outside this family's dialect too.
+	NeedClient bool
+
 	respUses map[string]string
 }
 
